@@ -218,8 +218,8 @@ LEVELS = {
     'C19': dict(
         text='Machine-checked Coq theorems: every probe series and the time series hold exactly the most recent min(count, capacity) entries and stay aligned; '
              'each measurement stores the probed values and calls every callback once in registration order; output-part sensor measures part 1, n+2, 2n+3, ...; '
-             'Cms.add_sensor idempotent; one pending periodic measurement, the k-th due k intervals after the start. The alignment clause was false of the original code '
-             '(coq/Findings/C19_refuted.v), repaired by a fix: commit.',
+             'Cms.add_sensor idempotent; one pending periodic measurement, the k-th due k intervals after the start. The series are aligned also in the state the on-sense callbacks see (C19_periodic_aligned_at_notification). '
+             'The alignment clause was false of the original code twice (coq/Findings/C19_refuted.v: D3 never trimmed, D11 trimmed after the callbacks), repaired by fix: commits c95a3db and 92eafab.',
         design_ref='DESIGN.md sections 0.3 and 8, C19', technique='Coq proof (suffix invariant, counter arithmetic, system invariant) + lock-step correspondence with the sensor classes',
         note='Trusted: Coq kernel, pyfacts.py, extraction + OCaml driver, Python harness.'),
     'C02': dict(
